@@ -46,8 +46,9 @@ HOOK_COMMITS = [
 ]
 
 REGISTRY["C11"] = {
+    "engine": "kani+mir",
     "technique": "bounded model checking (Kani/CBMC, SAT) of Channel framing + growable Buffer; symbolic execution of the MIR of Channel::writable into SMT (z3 + cvc5) for the would-block readiness protocol",
-    "level_text": "CBMC decides, for all byte contents / prefixes / split points within the stated small sizes, that the real Channel::{write_message,read_message} and Buffer code re-frames messages exactly once, in order, intact, classifies malformed prefixes, never panics or indexes out of bounds (incl. the unsafe ptr::copy blocks) and never grows past max_buffer_size. Bounded, not a proof.",
+    "level_text": "CBMC decides, for all byte contents / prefixes / split points within the stated small sizes, that the real Channel::{write_message,read_message} and Buffer code re-frames messages exactly once, in order, intact, classifies malformed prefixes, never panics or indexes out of bounds (incl. the unsafe ptr::copy blocks) and never grows past max_buffer_size. Bounded, not a proof. Engine M additionally decides the readiness protocol of Channel::writable (WRITABLE interest kept until the buffer was seen empty).",
     "level_note": "Channel::writable (real socket, not Kani-able) is decided by engine M for its readiness protocol only. Sizes are small and concrete (buffers 8..32 bytes, payloads <= 4 bytes); the socket syscalls are replaced by direct delivery into front_buf; message codec is a 4-byte stand-in. See evidence coverage.bounds / outside_bounds.",
     "rule": "C11: one harness per buffer op family / framing scenario.",
     "trusted_base": ["harness message codec `Raw` (≤4 raw bytes, 0xFF-first = undecodable) stands in for prost-generated WorkerRequest/Response"],
@@ -90,8 +91,9 @@ PP = ["lib/src/protocol/proxy_protocol/header.rs", "lib/src/protocol/proxy_proto
 EX = ["lib/src/protocol/proxy_protocol/expect.rs"] + PP
 _win = "window model: v4 upgrades exactly when 28 bytes are in, v6 at 52 (window 28 then 52); socket reads never go past the header; addresses recorded == header's; metrics.bin == bytes read"
 REGISTRY["C18"] = {
+    "engine": "kani+mir",
     "technique": "bounded model checking (Kani/CBMC, SAT) of the PROXY v2 codec, nom parser and ExpectProxyProtocol::readable over a scripted socket; symbolic execution of the MIR of the four Pipe relay handlers into SMT (z3 + cvc5) for the would-block readiness protocol",
-    "level_text": "CBMC decides, for all IPv4/IPv6 addresses, ports and payload bytes, that HeaderV2::into_bytes emits the exact v2 wire layout and parse_v2_header inverts it; that the parser is total on every input up to 60 bytes (no panic, exact consumption, error classes); and that ExpectProxyProtocol::readable over an in-memory socket upgrades at exactly the header end for the listed fragmentations, closes on malformed input and records the header's addresses. Bounded, not a proof.",
+    "level_text": "CBMC decides, for all IPv4/IPv6 addresses, ports and payload bytes, that HeaderV2::into_bytes emits the exact v2 wire layout and parse_v2_header inverts it; that the parser is total on every input up to 60 bytes (no panic, exact consumption, error classes); and that ExpectProxyProtocol::readable over an in-memory socket upgrades at exactly the header end for the listed fragmentations, closes on malformed input and records the header's addresses. Bounded, not a proof. Engine M additionally decides the would-block readiness protocol of the four Pipe relay handlers.",
     "level_note": "Fragmentations are enumerated concretely (chunk sizes per wake-up), header control bytes concrete, address and payload bytes symbolic; Pipe/splice relay, send-mode socket loop and relay mode are outside the claim.",
     "rule": "C18: one harness per codec direction / parser bound / fragmentation scenario.",
     "trusted_base": ["scripted in-memory SocketHandler (returns Continue when the slice was filled, else WouldBlock) stands in for the kernel socket"],
@@ -132,8 +134,9 @@ PA = ["lib/src/protocol/mux/parser.rs"]
 SE = ["lib/src/protocol/mux/serializer.rs"] + PA
 H2 = ["lib/src/protocol/mux/h2.rs"]
 REGISTRY["C15"] = {
+    "engine": "kani+mir",
     "technique": "bounded model checking (Kani/CBMC, SAT) of the nom HTTP/2 frame decoder, the frame serializers and the flood-detector step; symbolic execution of the MIR of two stateful guards (slot shrink, CONTINUATION buffer fit) into SMT (z3 + cvc5)",
-    "level_text": "CBMC decides, for every frame header (all 9-byte values, all max_frame_size) and every frame body of the listed small sizes with symbolic flags/length/stream id/bytes, that frame_header/frame_body never panic (all slice indexing, arithmetic and sozu's own debug_assert! post-conditions), consume exactly 9 + payload_len bytes or return an error of the RFC 9113 class, and that gen_* outputs parse back; one step of H2FloodDetector from an arbitrary counter state gives a violation exactly when a counter is above its threshold. Bounded, not a proof.",
+    "level_text": "CBMC decides, for every frame header (all 9-byte values, all max_frame_size) and every frame body of the listed small sizes with symbolic flags/length/stream id/bytes, that frame_header/frame_body never panic (all slice indexing, arithmetic and sozu's own debug_assert! post-conditions), consume exactly 9 + payload_len bytes or return an error of the RFC 9113 class, and that gen_* outputs parse back; one step of H2FloodDetector from an arbitrary counter state gives a violation exactly when a counter is above its threshold. Bounded, not a proof. Engine M additionally decides that the stream-slot vector only loses trailing recycled slots and that a CONTINUATION payload is expected only if it fits the remaining buffer (else GOAWAY).",
     "level_note": "Engine M adds two stateful guards the stateless decoder harnesses cannot see. Body buffers are 12..20 bytes; SETTINGS / PRIORITY_UPDATE payload lengths are enumerated (heap vectors); stateful connection behaviour (ConnectionH2 with HashMap/slab/sockets), HPACK decoder internals and the Prioriser are outside the claim.",
     "rule": "C15: one harness per frame type / encoder / detector step.",
     "trusted_base": ["std::time::Instant::{now,elapsed} replaced by a monotone stub clock (elapsed is symbolic whole seconds until now() is called, then 0)"],
@@ -172,8 +175,9 @@ REGISTRY["C15"] = {
 
 RT = ["lib/src/router/mod.rs"]
 REGISTRY["C04"] = {
+    "engine": "kani+mir",
     "technique": "bounded model checking (Kani/CBMC, SAT) of rule identity, match contracts and the path/method selection kernel of Router::lookup; symbolic execution of the MIR of TrieNode::lookup_with_path and Router::{add,remove}_{pre,post}_rule into SMT (z3 + cvc5) for host precedence per trie node and order stability of the pre/post lists",
-    "level_text": "CBMC decides, for all PREFIX/EQUALS path rules over 1..2 symbolic ASCII bytes, method classes {any, GET, POST}, exact/wildcard/any host rules and all probe paths of 0..3 bytes, that rule equality is exactly kind+string (the identity add/remove use), that the match functions honour their contracts, and that select_tree_rule returns the rule of greatest documented precedence (EQUALS > longest PREFIX, method-specific > method-agnostic) for both insertion orders of two rules. Bounded, not a proof.",
+    "level_text": "CBMC decides, for all PREFIX/EQUALS path rules over 1..2 symbolic ASCII bytes, method classes {any, GET, POST}, exact/wildcard/any host rules and all probe paths of 0..3 bytes, that rule equality is exactly kind+string (the identity add/remove use), that the match functions honour their contracts, and that select_tree_rule returns the rule of greatest documented precedence (EQUALS > longest PREFIX, method-specific > method-agnostic) for both insertion orders of two rules. Bounded, not a proof. Engine M additionally decides host precedence for one node of the trie walk and order stability of the pre/post rule lists.",
     "level_note": "Regex rules (regex crate) and the host trie (std HashMap) are outside CBMC's reach. Engine M decides host precedence for one node of the trie walk (exact child, else the wildcard whenever it applies with no regex sibling consulted, else regex siblings in list order; recursion, map lookup and regex matching uninterpreted) and that the pre/post rule lists are only mutated by order-preserving Vec operations at the looked-up position. Trie pruning on removal and cross-host independence over whole tries are not decided. Strings are <= 2 bytes, leaves hold 2 rules.",
     "rule": "C04: one harness per identity relation / match contract / pair-of-rules selection.",
     "trusted_base": [],
@@ -226,8 +230,9 @@ REGISTRY["C14"] = {
 }
 
 REGISTRY["C01"] = {
+    "engine": "kani+mir",
     "technique": "bounded model checking (Kani/CBMC, SAT) of the byte-conservation kernels: DATA split, frame header codec, DATA unpadding, Readiness wake-up algebra; symbolic execution of the MIR of ConnectionH2::handle_data_frame into SMT (z3 + cvc5) for the receive-side buffer accounting",
-    "level_text": "CBMC decides that the kernels every proxied body byte passes through conserve bytes: the converter's DATA split partitions a chunk into emitted part + pushed-back remainder, adjacent, in order, nothing duplicated (all windows/frame sizes/lengths); the 9-byte frame header codec is a bijection (all headers); DATA frame parsing returns exactly payload minus padding (all flags/lengths, 0..20 bytes); arm_writable/signal_pending_write always leave the session runnable for write (all 8-bit readiness states). Kernel level only.",
+    "level_text": "CBMC decides that the kernels every proxied body byte passes through conserve bytes: the converter's DATA split partitions a chunk into emitted part + pushed-back remainder, adjacent, in order, nothing duplicated (all windows/frame sizes/lengths); the 9-byte frame header codec is a bijection (all headers); DATA frame parsing returns exactly payload minus padding (all flags/lengths, 0..20 bytes); arm_writable/signal_pending_write always leave the session runnable for write (all 8-bit readiness states). Kernel level only. Engine M additionally decides, over the real MIR, the receive-side buffer accounting of handle_data_frame (slice rebased on the old head, head advanced by the wire length, credit in wire bytes) and that one pass of Mux::ready's event loop with an idle client either runs a handler or leaves the loop.",
     "level_note": "Receive side: engine M decides over handle_data_frame's real MIR that the payload slice is rebased on the buffer head from before the advance, that the head then advances by exactly the wire payload length (padding skipped, never replayed as body) and that flow-control credit counts wire bytes; and over Mux::ready that one pass of the event loop with an idle client cannot be a no-op that keeps the loop alive (the state that burns the iteration budget and closes the session mid-response). Nothing else here runs a Mux/ConnectionH2/Pipe with sockets: finalize_write, delay_close_for_frontend_flush, rustls write paths, socket partial-write loops, stream interleaving and kawa's H1 parser are outside the claim (heap-rich I/O state machines CBMC cannot hold).",
     "rule": "C01: one harness per kernel.",
     "trusted_base": ["tracing (used by loona-hpack) switched off by three Kani stubs"],
@@ -249,8 +254,9 @@ REGISTRY["C01"] = {
 
 PK = ["lib/src/protocol/mux/pkawa.rs"]
 REGISTRY["C03"] = {
+    "engine": "kani+mir",
     "technique": "bounded model checking (Kani/CBMC, SAT) of the H2->H1 header validation predicates against an RFC 9113 section 8.2 reference (differential, one-sided); symbolic execution of the MIR of the trailer callback and of write_regular_header into SMT (z3 + cvc5)",
-    "level_text": "CBMC decides, for every header name of 0..4 bytes and value of 0..3 bytes, that sozu's classify_invalid_h2_header rejects whenever a reference predicate written from RFC 9113/9110 says the field is unsafe to serialise as an HTTP/1.1 header line (empty/non-token/uppercase name, NUL/CR/LF/CTL/DEL in value, te != trailers); that the five connection-specific names are caught in every letter case; that the byte predicates equal the RFC character classes on all 256 bytes; that a conflicting Content-Length is refused without side effect; that host is accepted as matching :authority only for the same origin. Bounded, predicates only.",
+    "level_text": "CBMC decides, for every header name of 0..4 bytes and value of 0..3 bytes, that sozu's classify_invalid_h2_header rejects whenever a reference predicate written from RFC 9113/9110 says the field is unsafe to serialise as an HTTP/1.1 header line (empty/non-token/uppercase name, NUL/CR/LF/CTL/DEL in value, te != trailers); that the five connection-specific names are caught in every letter case; that the byte predicates equal the RFC character classes on all 256 bytes; that a conflicting Content-Length is refused without side effect; that host is accepted as matching :authority only for the same origin. Bounded, predicates only. Engine M additionally decides that the trailer callback screens ':'-prefixed names itself, that Content-Length digits go through the overflow-rejecting std parser, and what handle_trailer leaves queued for the HTTP/1.1 serialiser (two known findings).",
     "level_note": "Engine M adds the two places the Kani predicates are *used* with a twist: the trailer callback must screen ':'-names itself, and the Content-Length digits must go through the overflow-rejecting std parser. The HTTP/1.1 side (kawa's H1 parser, CL/TE conflicts on H1 frontends), HPACK decoding (loona-hpack), pseudo-header ordering/uniqueness over kawa storage and DATA-vs-Content-Length reconciliation in ConnectionH2 are outside the claim.",
     "rule": "C03: one harness per predicate family.",
     "trusted_base": ["the 20-line reference predicates in kani/src/c03.rs (written from RFC 9110 section 5.6.2 tchar, RFC 9113 section 8.2.1/8.2.2)"],
@@ -269,13 +275,15 @@ REGISTRY["C03"] = {
         K("c03::c03_trim_ows_exact", "0..5 symbolic bytes; unwind 8", "result is the inner sub-slice without SP/HTAB at the ends; only whitespace is trimmed", PK),
         M("c03_trailer_names_screened", "whole per-field callback of handle_trailer (108 blocks); hpack, metrics, kawa pushes uninterpreted", "a field is pushed only after `name.starts_with(b\":\")` answered false; a ':'-name never reaches classify_invalid_h2_header (which skips name validation for such names) and marks the trailer block invalid", PK, prop="c03m", which="trailer_pseudo"),
         M("c03_content_length_parsed_by_std", "whole write_regular_header + its parse closure", "the length given to set_content_length is the Ok value of str::parse::<usize>; an unrepresentable value (>= 2^64) returns Err (no clamping / wrapping)", PK, prop="c03m", which="cl_parse"),
+        M("c03_trailers_h1_framing", "whole handle_trailer (main function + per-field callback); kawa's H1 converter semantics (every Header block is written; `0\\r\\n` only for Flags.end_body on a chunked message) taken from the kawa 0.6.8 source", "the queuing of a trailer field, or a later removal of queued blocks, depends on kawa.body_size (nothing follows a fixed-length body); some Flags block built here can carry end_body = true (a chunked message gets its last chunk before the trailer section)", PK, prop="c03t", which="trailers_h1"),
     ],
 }
 
 ST = ["command/src/state.rs"]
 REGISTRY["C06"] = {
+    "engine": "kani+mir",
     "technique": "bounded model checking (Kani/CBMC, SAT) of the diff merge-join and of the Backend ordering it is fed with",
-    "level_text": "CBMC decides, for all strictly increasing key sequences of length <= 3 on each side (keys and values symbolic u8), that the real state::diff_map iterator emits exactly the keys that differ, each once, in order, with the right Added/Removed/Changed kind, and nothing for equal inputs; and that response::Backend's Ord agrees with == (Equal iff all fields equal), is antisymmetric and transitive over small symbolic field domains. Bounded; the end-to-end 'apply diff(A,B) to A' on ConfigState is not executed by the solver (prost structs + BTreeMaps measured out of CBMC's reach) and is covered only by the native replay tests of the repaired finding.",
+    "level_text": "CBMC decides, for all strictly increasing key sequences of length <= 3 on each side (keys and values symbolic u8), that the real state::diff_map iterator emits exactly the keys that differ, each once, in order, with the right Added/Removed/Changed kind, and nothing for equal inputs; and that response::Backend's Ord agrees with == (Equal iff all fields equal), is antisymmetric and transitive over small symbolic field domains. Bounded; the end-to-end 'apply diff(A,B) to A' on ConfigState is not executed by the solver (prost structs + BTreeMaps measured out of CBMC's reach) and is covered only by the native replay tests of the repaired finding. Engine M additionally decides the diff_map call-site precondition (both inputs sorted by the merge key).",
     "level_note": "Listeners/clusters/frontends/certificates sections of diff and worker convergence are outside the claim. diff_map is instantiated at K=u8,V=u8 (generic code, one instantiation).",
     "rule": "C06: merge-join exactness + ordering consistency.",
     "trusted_base": [],
@@ -295,8 +303,9 @@ REGISTRY["C06"] = {
 UF = ["lib/src/protocol/udp/flow.rs", "lib/src/protocol/udp/mod.rs"]
 UM = ["lib/src/protocol/udp/manager.rs", "lib/src/protocol/udp/mod.rs"]
 REGISTRY["C19"] = {
+    "engine": "kani+mir",
     "technique": "bounded model checking (Kani/CBMC, SAT) of the per-flow UDP state machine (one step from an arbitrary flow state) and the affinity key; symbolic execution of the MIR of the UdpManager entry points into SMT (z3 + cvc5) for the admission gate, cap updates and the count-then-teardown protocol",
-    "level_text": "CBMC decides, from an arbitrary UdpFlow state (all counters, caps, generation, PPv2 flags symbolic), that one datagram/touch step changes exactly the right saturating counter, always changes the timer generation (so a stale expiry never matches, incl. u64 wrap), that teardown_reason is Some exactly when a non-zero cap is reached (responses first) and fires on exactly the cap-th datagram, that the PPv2 prefix policy is never/every/exactly-first, that phases only move forward; and that FlowKey::from_src identifies exactly the source ip (and port when configured) for all IPv4/IPv6 addresses. Single inductive steps, so they hold for histories of any length.",
+    "level_text": "CBMC decides, from an arbitrary UdpFlow state (all counters, caps, generation, PPv2 flags symbolic), that one datagram/touch step changes exactly the right saturating counter, always changes the timer generation (so a stale expiry never matches, incl. u64 wrap), that teardown_reason is Some exactly when a non-zero cap is reached (responses first) and fires on exactly the cap-th datagram, that the PPv2 prefix policy is never/every/exactly-first, that phases only move forward; and that FlowKey::from_src identifies exactly the source ip (and port when configured) for all IPv4/IPv6 addresses. Single inductive steps, so they hold for histories of any length. Engine M additionally decides the UdpManager's protocol around its containers: exact cap updates, the admission gate, count-then-teardown.",
     "level_note": "The manager's containers (HashMap<FlowKey,FlowId> + slab + VecDeque) are outside CBMC's reach; the engine-M obligations decide the manager's protocol around them with every container call uninterpreted: a slot is allocated only for an untracked key, not draining, after flows.len() < max_flows was observed; SetMaxFlows(n) stores exactly n; every counted datagram is followed by teardown_reason() on the updated flow and close_flow runs exactly when it says Some. Table/slab coherence over histories (close_flow key recomputation, handle_timeout sweep, generation comparison at expiry) is not decided.",
     "rule": "C19: one harness per flow method family.",
     "trusted_base": ["Instant values are a fixed origin (never compared by the flow); timeouts are whole seconds"],
@@ -386,7 +395,7 @@ REGISTRY["C20"] = {
 
 SV = ["lib/src/server.rs"]
 REGISTRY["C08"] = {
-    "engine": "mir",
+    "engine": "kani+mir",
     "technique": "symbolic execution of the MIR of Server::notify / notify_proxys into SMT (answer-count over all paths) + bounded model checking (Kani) of the get_destinations routing table + MIR write-set comparison of the listener patch",
     "level_text": "z3 and cvc5 both decide, over every path of the real compiled MIR, that Server::notify queues exactly one final answer for every worker-level verb (closures that answer are analysed and counted) or delegates exactly once to notify_proxys, and that notify_proxys queues at most one final answer and leaves a request unanswered only when it has neither a proxy destination nor a listener special case - under the contract that listener verbs have no proxy destination, which two Kani harnesses pin on the real Request::get_destinations for every worker-reachable RequestType. A further MIR obligation shows the worker's ConfigState records every field of an accepted listener patch (the queryable view follows the behaviour).",
     "level_note": "Each proxy's own notify (http/https/tcp/udp: HashMap + sockets) returning exactly one response, the special-cased HardStop/SoftStop/ReturnListenSockets answers in read_channel_messages_and_notify, and equality of the worker's whole view with the master's are outside the claim. A verb with no destination and no special case (master-only verbs, empty request) gets no answer: stated, not claimed.",
